@@ -291,8 +291,8 @@ func c20RunScenario(w *fw.W, e *c20Env, s *c20Scenario) {
 			}
 		}
 	}
-	// abandonment points
-	for k := 0; k < len(s.Calls); k++ {
+	// abandonment points (the HTTP middleware owns its transaction: there is no call to stop after)
+	for k := 0; k < len(s.Calls) && s.Kind != "http"; k++ {
 		c := &c20Case{Scenario: s, Mode: "abandon", Stop: k}
 		r := run(c, base)
 		if w.WantSample() && k == len(s.Calls)/2 && w.Batch.Index%3 == 2 {
@@ -322,7 +322,7 @@ func init() {
 		Required:   []string{"scenarios", "fault_points_reached", "faults_fired", "abandonment_points", "files_checked", "fd_checks", "followup_probes", "real_faults_effective", "reuse_confirmed"},
 		Exhaustive: true,
 		Plan: func(tier fw.Tier, seed int64) []fw.Batch {
-			n := 12
+			n := 16
 			if tier == fw.Thorough {
 				n = 32
 			}
@@ -345,7 +345,7 @@ func init() {
 				return
 			}
 			if p.Strace != "" {
-				c20StraceSweep(w, p.Strace)
+				c20StraceSweep(w, p.Strace, "")
 				return
 			}
 			if p.N <= 0 {
@@ -363,6 +363,11 @@ func init() {
 			}
 		},
 		Replay: func(w *fw.W, raw json.RawMessage) {
+			var st c20StraceCase
+			if json.Unmarshal(raw, &st) == nil && st.Syscall != "" {
+				c20StraceSweep(w, st.Scenario, st.Syscall) // re-runs every injection of that system call in the scenario
+				return
+			}
 			var c c20Case
 			if json.Unmarshal(raw, &c) != nil || c.Scenario == nil {
 				return
